@@ -174,7 +174,7 @@ def nshards(tier):
 def shard(tier, seed, idx) -> ShardResult:
     res = ShardResult()
     comp.run(PROP, st_case(), check_case, lambda f: bool(f & {"inner_links", "same_link_backwards", "opposite_directions"}), res,
-             cases=300 if tier == "quick" else 12000, seed=seed * 1000 + idx, kind="component")
+             cases=300 if tier == "quick" else 8000, seed=seed * 1000 + idx, kind="component")
     return res
 
 
